@@ -40,7 +40,8 @@ def main():
         subprocess.run(["git", "-C", a.repo, "checkout", "--", "."], check=True)
     viol = [l for l in out.splitlines() if l.startswith("VIOLATION") or l.startswith("  harness ") or l.startswith("NONREPRODUCING")]
     rec = {"repo": a.repo, "repo_head": subprocess.run(["git", "-C", a.repo, "rev-parse", "--short", "HEAD"], capture_output=True, text=True).stdout.strip(), "check": a.prop, "tier": a.tier, "only": a.only, "seed": a.seedval, "exit": p.returncode, "wall_s": round(time.time() - t0),
-           "lines": viol[:12], "summary": out.strip().splitlines()[-1] if out.strip() else ""}
+           "lines": viol[:12], "summary": out.strip().splitlines()[-1] if out.strip() else "",
+           "stderr_tail": "\n".join(l for l in (p.stderr or "").splitlines() if "conda" not in l)[-1500:] if p.returncode not in (0, 1, 2) or not out.strip() else ""}
     dp = os.path.join(sd, "detection.json")
     try:
         with open(dp) as f:
